@@ -823,7 +823,7 @@ class NDCubeBase(NDCubeABC, astropy.nddata.NDData, NDCubeSlicingMixin):
         if return_footprint:
             data, footprint = data
 
-        resampled_cube = type(self)(data, wcs=target_wcs, meta=deepcopy(self.meta))
+        resampled_cube = type(self)(data, wcs=target_wcs, meta=deepcopy(self.meta), unit=self.unit)
         resampled_cube._global_coords = deepcopy(self.global_coords)
 
         if return_footprint:
